@@ -29,7 +29,7 @@ SPEC = dict(
                  "committed by `git commit` by design and are not asserted",
                  "a run is expected to proceed only when no pattern file is dirty (and the tree is clean or "
                  "--allow-dirty is given)"],
-    required=["submodule_cases", "quoted_names_in_porcelain_output", "dot_git_is_a_file_cases", "hg_status_cases", "aborts_checked", "proceeds_checked", "pattern_file_dirty_with_allow_dirty", "untracked_unrelated_not_blocking",
+    required=["submodule_cases", "untracked_pattern_file_in_untracked_directory", "quoted_names_in_porcelain_output", "dot_git_is_a_file_cases", "hg_status_cases", "aborts_checked", "proceeds_checked", "pattern_file_dirty_with_allow_dirty", "untracked_unrelated_not_blocking",
               "bump_commit_content_checked"],
     anchors=[("vcs", "assert_not_dirty"), ("cli", "_update")],
     exhaustive={"quick": True, "thorough": True},
@@ -277,6 +277,11 @@ def run_case(ctx, case):
                 continue
             code = {"R>": "R ", "RM>": "RM", "RD>": "RD", "sub: M": " M", "sub:M ": "M "}.get(st, st)
             hit = [ln for ln in entries if ln[:2] == code and rel in ln]
+            if not hit and code == "??":
+                # git reports a directory that holds only untracked files as ONE entry: `?? src/`
+                hit = [ln for ln in entries if ln[:2] == "??" and ln[3:].endswith("/") and rel.startswith(ln[3:])]
+                if hit and rel == pfile:
+                    ctx.count("untracked_pattern_file_in_untracked_directory")
             if not hit:
                 raise harness.Skip(f"scenario-not-reproduced:{st}")
         before = harness.snapshot(d)
